@@ -52,6 +52,66 @@ type hostileCase struct {
 	MetaOnly bool     `json:"metaOnly,omitempty"`
 	// Rejected: paths the receiver's own Filter rejects
 	Rejected []string `json:"rejected,omitempty"`
+	// LinkModel: the case was enumerated by TLC (spec/ReceiveLinksMC.tla); what the model predicts for it
+	LinkModel *linkModel `json:"linkModel,omitempty"`
+}
+
+// linkModel is one line of the case files TLC writes for ReceiveLinksMC (configuration _gen).
+type linkModel struct {
+	Name          string   `json:"name"`
+	How           string   `json:"how"`  // plain | metaOnly | filter
+	Keep          []string `json:"keep"` // selected (metaOnly) / accepted (filter) entries among d, d/x, z
+	Merge         bool     `json:"merge"`
+	Prior         string   `json:"prior"` // none | dir | linkOut
+	ModelFails    bool     `json:"modelFails"`
+	ModelTouched  bool     `json:"modelTouched"`
+	ModelViaChild bool     `json:"modelViaChild"`
+}
+
+// linkModelCases turns the TLC-enumerated surroundings of the stream d, d/x, z -> d/x into hostile cases.
+func linkModelCases(gen string) ([]hostileCase, error) {
+	files, _ := filepath.Glob(filepath.Join(gen, "linkcase_*.ndjson"))
+	sort.Strings(files)
+	var out []hostileCase
+	for _, f := range files {
+		err := readLines(f, func(ln []byte) error {
+			lm := &linkModel{}
+			if err := json.Unmarshal(ln, lm); err != nil {
+				return err
+			}
+			hc := hostileCase{Script: []hpkt{{T: "STAT", Path: "d", Kind: "dir"}, {T: "STAT", Path: "d/x", Kind: "file", Size: 2},
+				{T: "STAT", Path: "z", Kind: "file", Link: "d/x"}}, Merge: lm.Merge, LinkModel: lm, Origin: "linkModel/" + lm.Name}
+			switch lm.Prior {
+			case "dir":
+				hc.Dst = model.Tree{{Path: "d", Type: "dir", Perm: 0755, Mtime: 1300000000000000018},
+					{Path: "d/x", Type: "file", Perm: 0644, Mtime: 1300000000000000019, Data: []byte("dx"), Size: 2}}
+			case "linkOut":
+				hc.Dst = model.Tree{{Path: "d", Type: "symlink", Link: "/outside/od", Perm: 0777, Mtime: 1300000000000000011}}
+			}
+			keep := map[string]bool{}
+			for _, k := range lm.Keep {
+				keep[k] = true
+			}
+			switch lm.How {
+			case "metaOnly":
+				hc.MetaOnly = true
+				hc.Selected = append([]string{}, lm.Keep...)
+				sort.Strings(hc.Selected)
+			case "filter":
+				for _, e := range []string{"d", "d/x", "z"} {
+					if !keep[e] {
+						hc.Rejected = append(hc.Rejected, e)
+					}
+				}
+			}
+			out = append(out, hc)
+			return nil
+		})
+		if err != nil {
+			return nil, err
+		}
+	}
+	return out, nil
 }
 
 func (p hpkt) stat() *types.Stat {
@@ -354,7 +414,13 @@ func hostileChild(args []string) {
 				}
 				return nil, false
 			},
-			Extra: vt.Ev{"input": vt.Opaque(hc), "origin": hc.Origin, "hostile": true, "outsideBefore": ob, "rejectedPaths": rejPaths}})
+			Extra: func() vt.Ev {
+				x := vt.Ev{"input": vt.Opaque(hc), "origin": hc.Origin, "hostile": true, "outsideBefore": ob, "rejectedPaths": rejPaths}
+				if hc.LinkModel != nil {
+					x["linkModel"] = vt.Ev{"fails": hc.LinkModel.ModelFails, "touched": hc.LinkModel.ModelTouched}
+				}
+				return x
+			}()})
 		if err != nil {
 			fmt.Fprintln(os.Stderr, "runsync:", err)
 			os.Exit(2)
@@ -507,6 +573,15 @@ func Hostile(c *Ctx) error {
 					}
 				}
 			}
+		}
+		// the surroundings TLC enumerated for the stream d, d/x, z -> d/x (spec/ReceiveLinksMC.tla), with the model's prediction
+		if gen := os.Getenv("VERIF_GEN_DIR"); gen != "" {
+			lc, err := linkModelCases(gen)
+			if err != nil {
+				return err
+			}
+			cases = append(cases, lc...)
+			c.Stats.Note(fmt.Sprintf("%d cases enumerated by TLC from ReceiveLinksMC (how x keep x merge x prior)", len(lc)))
 		}
 		// mimicry: an entry of another type that carries the link name, size, owner and modification time of a symlink the
 		// destination already holds (what the metadata differ compares), followed by a child below it
